@@ -787,6 +787,12 @@ package analysis
 //@   inline
 //@   callsite Schema: callee_opts.visitedRefs == a.visitedRefs
 
+// the complexity rule used by Flatten to decide which inline schemas become definitions (C03 clause 1, C20)
+//@ func (a *AnalyzedSchema) isAnalyzedAsComplex()
+//@   requires a != nil
+//@   modifies nothing
+//@   ensures result == complexA(*a)
+
 // strfmt.Default (the global format registry) is initialised by its package
 //@ func Schema(opts)
 //@   requires strfmt.Default != nil
